@@ -28,7 +28,7 @@ RULE = (
     "declared in config.yml or hand-written `flow input rails $input_text`) x 1-4 turns, each with a user text = hostile "
     "characters/intents around a unique marker, a dialog route (predefined / LLM / mixed / LLM-chosen next step / custom action) "
     "and a verdict accept|reject|rewrite per (rail, turn); a third of the later turns re-send, character by character, the text of "
-    "an earlier turn (same marker); a quarter of the v1 configurations run in passthrough mode (with and without dialog rails; "
+    "an earlier turn (same marker); a third of the v1 turns from the third on replace the previous turn (the history is re-sent without the last exchange: edit / regenerate); a quarter of the v1 configurations run in passthrough mode (with and without dialog rails; "
     "without them the LLM input is the chat message list, which the scripted LLM records); run through LLMRails.generate or generate_async with a scripted LLM. "
     "Non-trivial = at least 2 input rails and (a reject after an accepting/rewriting rail, or a rewrite followed by a later "
     "rail) in some turn, or a reject in a turn >= 2; distinct by the whole case."
@@ -36,7 +36,7 @@ RULE = (
 ASSUMPTIONS = [
     "rail actions are fakes registered with register_action (system actions, like the shipped self-check actions); the shipped `self check input` rail is driven by the scripted LLM's yes/no",
     "Colang 2.x input rails are generated in the library's check shape only: rewriting is asserted for Colang 1.0 only, as the statement says",
-    "the caller keeps the conversation the way the server does: previous user messages and returned replies are passed back as `messages` (v1) / the returned `state` (v2)",
+    "the caller keeps the conversation the way the server does: previous user messages and returned replies are passed back as `messages` (v1) / the returned `state` (v2); a turn marked redo re-sends that list without the last exchange",
     "the LLM text generated for un-blocked turns and what output rails do with refusals are not asserted here (C02)",
     "raw passthrough mode (passthrough without dialog rails) hands the caller's own message list to the LLM: there only the message of the current turn (last list element) is asserted to be the rewritten one, earlier turns are the caller's business",
     "a turn that needs more than 100 internal events makes the Colang 1.0 runtime raise `Too many events.` (safety limit); such cases (many rails + long routes) are counted as skipped, not judged",
@@ -75,6 +75,9 @@ def _case(draw):
             s = draw(st.sampled_from([t - 1, t - 1, draw(st.integers(0, t - 1))]))
             turn["user"] = turns[s]["user"]
             turn["umark"] = turns[s].get("umark", s)
+        if v == 1 and t >= 2 and draw(st.sampled_from([False, False, True])):
+            # the user edits the previous message / regenerates: this turn is sent with the history BEFORE the previous turn
+            turn["redo"] = True
         turns.append(turn)
     return {"config": cfg, "turns": turns, "api": draw(st.sampled_from(["sync", "async"]))}
 
@@ -298,6 +301,9 @@ def _check(case, obs):
                         )
             if "rewrite" in verdicts:
                 rewritten_before.append((t, m["orig"]))
+        if spec.get("redo"):
+            labels.append("turn-replaces-previous-turn")
+            nt = nt or bool(rewritten_before)
         if "umark" in spec:
             labels.append("repeated-user-text")
             prev = pipeline.model_input(cfg, case["turns"][t - 1], t - 1)
